@@ -172,6 +172,26 @@ class C07(F.Spec):
                     ops.append(mo.pop(0))
                     exp.append([x for x in g if x.startswith("DUR ")])
             return "\n".join(ops) + "\n", exp
+        if any(o.split()[0] == "reboot" for o in case.ops):
+            # the relay state across the restart against Model/Relay (relaySaved / logicalAfterBoot): for every relay with a restore
+            # flag that was switched in the life before and had come to rest (the delayed save has run)
+            case.meta["raw_impl"] = raw
+            self.monitor(case, raw, 0, "")
+            infos, reasons = getattr(self, "_infos", []), getattr(self, "_lifereasons", [])
+            for li in range(1, len(infos)):
+                prev, cur = infos[li - 1], infos[li]
+                if not prev or not cur or cur["boot"] is None:
+                    continue
+                for k, ed in sorted(prev["edges"].items()):
+                    fl = prev["flags"].get(k, 0)
+                    if not (fl & 0x06) or not ed or k >= len(cur["boot"][0]):
+                        continue
+                    last_act = max([c[0] for c in prev["cmds"]] + [e[-1][0] // 1000 for e in prev["edges"].values() if e])
+                    if last_act > prev["end"] - 1300:
+                        continue
+                    lo = 1 if fl & 0x10 else 0
+                    ops.append("relboot %d %d %d %d %d" % (lo, 1 if fl & 4 else 0, 1 if fl & 2 else 0, reasons[li] if li < len(reasons) else 0, ed[-1][1]))
+                    exp.append(["RELBOOT saved=%d logical=%d" % (1 if cur["boot"][0][k] else 0, cur["init_level"].get(k, lo))])
         for op, g in zip(case.ops, raw):
             if op.startswith("cdset "):
                 ops.append(op)
@@ -209,6 +229,7 @@ class C07(F.Spec):
             self._reason = reasons[li] if li < len(reasons) else 0
             fs += self.check_life(ops, gs, li)
             infos.append(self._info)
+        self._infos, self._lifereasons = infos, reasons
         # across a power cycle: what a restoring relay comes back with is the state it was last switched to, provided
         # the last relay write on the board was old enough for the save to have happened (it is delayed by SAVE_STATE_DELAY = 1 s)
         for li in range(1, len(infos)):
@@ -307,7 +328,7 @@ class C07(F.Spec):
                         fs.append(F.Finding("published-time-wrong", "channel %d has no timer running but %d ms are published as remaining" % (ch, pv)))
         if end is None:
             end = now
-        self._info = {"edges": edges, "end": end, "flags": flags, "boot": boot, "cmds": cmds}
+        self._info = {"edges": edges, "end": end, "flags": flags, "boot": boot, "cmds": cmds, "init_level": init_level}
         # timed commands of this life
         for k, (t0, ch, v, d) in enumerate(cmds):
             if d == 0:
